@@ -373,14 +373,23 @@ func (w *Where) Transform() Query {
 	case *Minus:
 		// distribute where over minus
 		// need project because Minus Columns are just the left side's
+		e2 := w.tryProject(q.source2)
+		if e2 == nil {
+			return w.transform(src)
+		}
 		src1 := NewWhere(q.source1, w.expr, w.t)
-		src2 := NewWhere(q.source2, w.project(q.source2), w.t)
+		src2 := NewWhere(q.source2, e2, w.t)
 		return NewMinus(src1, src2, w.t).Transform()
 	case *Union:
 		// distribute where over union
 		// need project because Union Columns is the union
-		src1 := NewWhere(q.source1, w.project(q.source1), w.t)
-		src2 := NewWhere(q.source2, w.project(q.source2), w.t)
+		e1 := w.tryProject(q.source1)
+		e2 := w.tryProject(q.source2)
+		if e1 == nil || e2 == nil {
+			return w.transform(src)
+		}
+		src1 := NewWhere(q.source1, e1, w.t)
+		src2 := NewWhere(q.source2, e2, w.t)
 		return NewUnion(src1, src2).Transform()
 	case *Times:
 		// split where over times
@@ -483,6 +492,17 @@ func (w *Where) project(q Query) *ast.Nary {
 		expr = &ast.Nary{Tok: tok.And, Exprs: []ast.Expr{expr}}
 	}
 	return expr.(*ast.Nary)
+}
+
+// tryProject is project, or nil when the expression with "" in place of
+// the missing columns cannot be built (the folder rejects e.g. -"")
+func (w *Where) tryProject(q Query) (expr *ast.Nary) {
+	defer func() {
+		if e := recover(); e != nil {
+			expr = nil
+		}
+	}()
+	return w.project(q)
 }
 
 var emptyConstant = ast.Constant{Val: EmptyStr}
